@@ -2,6 +2,7 @@ import CarModel.Driver.Idx
 import CarModel.Spec
 import CarModel.Resume
 import CarModel.Faults
+import CarModel.Transform
 /- Families `open/put/many/has/get/size/keys/roots/finalize/finro/close/discard/file` — C04, C05, C20. -/
 namespace Car.Driver
 
@@ -103,6 +104,13 @@ def famFaultOp (se : Sess) (fam : String) (kv : KV) (f : Fault) : Sess × String
 def famOp (se : Sess) (fam : String) (kv : KV) : Sess × String × String :=
   if (fam == "put" || fam == "finalize" || fam == "many") && (parseFault kv).isSome then
     famFaultOp se fam kv ((parseFault kv).getD ⟨0, 0⟩)
+  else if fam == "reproot" then
+    -- car create's last step: ReplaceRootsInFile on the finalised file (C18)
+    let nr := parseRoots (KV.getD kv "roots" "nil")
+    let r := replaceRoots (32 * 2 ^ 20) se.m.file nr
+    match r.1 with
+    | .ok _ => ({ se with roots := nr, m := { se.m with file := r.2 } }, "r=ok", "r=ok")
+    | .error e => (se, "r=" ++ errName e, "r=ok")
   else if fam == "file" then
     let spec := if se.s.finalized ∨ (se.s.api = .storage ∧ se.s.closed) then
                   ((Spec.finalFile se.o se.roots se.s.log).map toHex).getD "none"
